@@ -516,6 +516,34 @@ STATEMENTS = {
         '$scoreboard players set @s o $(n);',
         '$$(cmd) arg;',
     ],
+    # strengthening round 4: vanilla macro tokens `$(name)` in CONDITIONS (every construct that takes one), selectors, scores,
+    # NBT paths, call arguments and `$`-prefixed statements; bare, with a connected suffix / prefix, two in a row
+    'macro_cond': [
+        'if (score $(p) obj matches 1..) { say "a"; }',
+        '$if (score $(p) $(o) matches 1..) { say "a"; }',
+        'while (score $(p)_x obj matches 1..) { say "a"; }',
+        'do { say "a"; } while (score $(p)_x obj matches 1..);',
+        'for ($i = 0; score $(p)_x obj matches 1..; $i++) { say "a"; }',
+        'if (entity @a[tag=$(t)]) { say "a"; }',
+        'if ($(p)) { say "a"; }',
+        'if ($x == $(p)) { say "a"; }',
+        'if ($(c) && $x == 1 || $(d)) { say "a"; }',
+        'if (data storage $(ns) $(path)) { say "a"; }',
+        'if (score $(a) $(b) = $(c) $(d)) { say "a"; }',
+        'if (predicate $(ns):$(p)) { say "a"; }',
+        'if (score $(a)$(b) obj matches 1..) { say "a"; }',
+        'if (entity @s[scores={$(o)=1..}]) { say "a"; }',
+        'if (($(p)) && !($(q) || $x > 1)) { say "a"; }',
+        'execute unless (entity $(s) && score $(p)_x o matches 1) run say "x";',
+        '$execute as $(sel) at @s if entity @e[tag=$(t),distance=..$(d)] run tp @s $(x) $(y) $(z);',
+        '$execute if ($x == 1 && score $(p) o matches 1) run say "x";',
+        '$tp @s $(x) $(y)_z a$(z);',
+        '$::a.$(k) = 1;',
+        '$function $(ns):$(f);',
+        ('g() with {k: "$(x)"};', PRE_G),
+        'switch ($x) { case 1: $say "$(a)"; case 2: $tp @s $(b) ~ ~; }',
+        '$execute store result score $(p) $(o) run data get storage $(ns) $(path) $(scale);',
+    ],
 }
 
 # (function-level statement, header text): one header directive (or a few cooperating ones) each
@@ -534,6 +562,7 @@ HEADER_LINES = [
     ('say "U";', '#bind __UUID__ U'),
     ('say "x";', '#credit "by me"'),
     ('mycmd 1 -2;', '#command mycmd'),
+    ('as @p;', '#command as'),
     ('say "x";', '#override minecraft'),
     ('say "x";', '#nometa'),
     ('$e = E.B;', '#enum E A B C'),
